@@ -382,7 +382,10 @@ PROPS["C17"] = dict(
 PROPS["C16"] = dict(
     level="model_checking",
     budget_s=dict(quick=240, thorough=1800),
-    parts=[dict(name="misuse", bin="C16", flavour="asan", max_crashes=60)],
+    parts=[dict(name="misuse", bin="C16", flavour="asan", max_crashes=60, budget_share=0.55)] +
+          # thorough tier: the other properties' harnesses (quick bounds) under ASan/UBSan + shim; only crashes / sanitizer reports count here
+          [dict(name="asan_" + b, bin=b, flavour="asan", tiers=("thorough",), crash_only=True, args=dict(thorough=["--tier=quick"]), budget_share=0.08, max_crashes=10)
+           for b in ("C05", "C06", "C13", "C14", "C15", "C17", "C19", "C20")],
     manifest=dict(
         engine="E1", design_ref="5 / C16",
         technique="exhaustive enumeration of misuse programs (state x call, and ordered call pairs) on the real library under ASan+UBSan with an instrumented HDF5 boundary shim, libstdc++ assertions and the boost assert handler; crash sandbox attributes every report to its program",
